@@ -18,3 +18,23 @@ package io
 //@   at call os.OpenFile#1 assert arg0 == filename && bit(arg1, os.O_APPEND) && bit(arg1, os.O_CREATE) && !bit(arg1, os.O_TRUNC)
 //@   at call io.Copy#1 assert arg1 == reader
 //@   ensures called("os.OpenFile") && !called("os.Create") && imp(result == nil, called("io.Copy"))
+
+// `>` / `|>` and `>>` share writeFile, which takes the writer as a parameter: whichever flags are given
+// (-i, -w, none) and whether or not stdin is cached first, the file is written by THAT writer and no other,
+// under the file name the flags leave over.
+//@ func writeFile [C33]
+//@   check none
+//@   at call dynamic:fn@"fn(bytes.NewBuffer(" assert arg1 == ret("(*Parameters).String#1", 0)
+//@   at call dynamic:fn@"fn(p.Stdin, parameter2)" assert arg1 == ret("(*Parameters).String#2", 0) && arg0 == p.Stdin
+//@   at call dynamic:fn@"fn(p.Stdin, filename)" assert arg1 == filename && arg0 == p.Stdin
+//@   at call dynamic:fn@"fn(bytes.NewReader(b), filename)" assert arg1 == filename
+//@   ensures !called("truncateFile") && !called("appendFile")
+//@   ensures imp(result == nil, called("dynamic:fn"))
+//@ func cmdTruncateFile [C33]
+//@   check none
+//@   at call writeFile#1 assert arg0 == p && isfunc(arg1, "truncateFile")
+//@   ensures called("writeFile")
+//@ func cmdAppendFile [C33]
+//@   check none
+//@   at call writeFile#1 assert arg0 == p && isfunc(arg1, "appendFile")
+//@   ensures called("writeFile")
